@@ -51,3 +51,18 @@ CHECKS = {
               "sets and lagging validators validated call by call; coverage counters for no-quorum decisions and non-first Atropos.",
               ref="C10"),
 }
+
+CHECKS["C28"] = dict(
+    category="model_checking",
+    text="Linearizability: seeded concurrent histories (2-4 goroutines, <= 16 operations, call/ret lines appended under one mutex) of the "
+         "flushable store, the flush-buffering pool, the thread-safe LRU and the events semaphore are recorded from the real code and TLC "
+         "searches for linearization points against the sequential specifications specs/conc/{FlushLin,PoolLin,LRULin,SemLin}.tla; "
+         "concurrent runs of the ordering buffer are validated against EventsBuffer.tla. Race freedom: a -race build of the harness runs "
+         "workloads of 2-8 goroutines mixing all public operations (including size/statistics accessors); any DATA RACE report is a "
+         "violation identified by the pair of racing functions.",
+    note="Race freedom is decided by the Go race detector on the executed workloads, not by a specification; linearizability is sampled "
+         "(hundreds of short histories per run). Known finding F12 (SyncedPool.Flush not atomic w.r.t. concurrent writers across databases) "
+         "is reproduced by a dedicated scenario and classified by the relaxed spec PoolLinNA.tla.",
+    technique="TLA+ sequential specs + TLC linearization search over recorded call/ret histories; Go race detector for races",
+    design_ref="DESIGN.md section 5 (C28), section 3 pattern L",
+)
